@@ -59,7 +59,50 @@ def gen_cases(rng, tier):
     return cases
 
 
+def oracle(c, it):
+    """grid cases: every press of the tap-hold key produces exactly one of tap (x) / hold (lsft) / timeout action (z); a first press with
+    no other input in between is a tap when released before H and hold (or the timeout action) from tick H on otherwise"""
+    if 'variant' not in (c.get('tags') or {}) or not it or it[0].startswith('PARSE-') or any(l.startswith(('PANIC', 'ABORT', 'HANG')) for l in it):
+        return None
+    H = c['tags']['H']
+    prev = set()
+    downs = {45: [], 42: [], 44: []}
+    for l in it:
+        if l.startswith('@') and ' K' in l:
+            tick = int(l.split(' ')[0][1:].rstrip('+'))
+            cur = set(int(x) for x in l.split(' K', 1)[1].split(' C ')[0].split())
+            for k in downs:
+                if k in cur and k not in prev:
+                    downs[k].append(tick)
+            prev = cur
+    presses = sum(1 for t in c['hist'] if t == 'p0,30')
+    total = sum(len(v) for v in downs.values())
+    if total != presses:
+        return 'the tap-hold key was pressed %d times but %d actions were performed (tap x at %s, hold lsft at %s, timeout action z at %s)' % (
+            presses, total, downs[45], downs[42], downs[44])
+    # the first press, if nothing else happens before it is decided
+    toks = c['hist']
+    if toks and toks[0] == 'p0,30':
+        now, i = 0, 1
+        while i < len(toks) and toks[i][0] == 't':
+            now += int(toks[i][1:]); i += 1
+        # ... and nothing else arrives until the decision has been taken (events of the same millisecond sit in the queue together:
+        # a press queued behind the release still counts as "another key pressed" for the press variants)
+        quiet_after = i + 1 < len(toks) and toks[i + 1][0] == 't' and int(toks[i + 1][1:]) >= 3
+        if i < len(toks) and toks[i] == 'r0,30' and quiet_after:
+            first = sorted((t, k) for k, v in downs.items() for t in v)[0]
+            # (an input event takes effect in the tick after its arrival: a release at H-1 is handled in the very tick in which the
+            # timeout elapses - with concurrent-tap-hold the hold wins there - so the two boundary values are not judged)
+            if now < H - 1 and first[1] != 45:
+                return 'first press released after %d ms (< %d) with no other input: expected the tap action, saw key %d first' % (now, H, first[1])
+            if now > H and (first[1] == 45 or not (H <= first[0] <= H + 2)):
+                return 'first press held %d ms (> %d) with no other input: expected hold / timeout action at tick %d, saw key %d at tick %d' % (
+                    now, H, H, first[1], first[0])
+    return None
+
+
 SPEC = {
+    'oracle': oracle,
     'id': 'C05', 'sub': 'lsim', 'gen_cases': gen_cases, 'nontrivial': trace_has_output,
     'rule': 'grid: every tap-hold variant x H x tap-repress window {0,30} x concurrent-tap-hold on/off x random consistent schedules '
             'of <=7 events over the tap-hold key and two other keys with gaps {0,1,H-1,H,H+1}; plus random C05-profile configs '
